@@ -7,10 +7,58 @@ HERE = os.path.dirname(os.path.dirname(os.path.abspath(__file__)))
 C = {
  "C01": (True, "exploration", "reference-model monitor (ordered map) over exhaustive small scopes, boundary-directed and random builds; decoder-derived structural coverage",
    "Every build (all subsets of {a,b}^<=3 x value styles x 6 cache geometries via hook H1, fan-out/width palettes, all 256 bytes, 70 kB keys, corpora, random and bulk maps) is reopened and streamed through every enumeration API and compared element-wise with the inserted map. Held-on-what-was-run, with exhaustive coverage of the small scopes in which the builder's case distinctions live.",
-   "Trusts the harness' BTreeMap-ordered model and generators; structural coverage classes come from the independent decoder; not a proof for all inputs.", "DESIGN.md#c01"),
+   "Trusts the harness' ordered-map model and generators; structural coverage classes come from the independent decoder; not a proof for all inputs.", "DESIGN.md#c01"),
+ "C02": (True, "exploration", "reference-model monitor: point lookups vs ordered map, probe classes from the independently decoded node graph",
+   "Every key, every proper prefix, one-byte extensions, all 256 continuations at wide nodes and the root, +-1 substitutions at every position, empty and random probes through raw/Map/Set get/contains_key/contains on the shared case pool; ~10^8 probes per quick run.",
+   "Model = binary search on the inserted sequence; coverage classes are decoder-derived.", "DESIGN.md#c02"),
+ "C03": (True, "exploration", "reference-model monitor (range filter) + online invariant monitor on hooked stream state (H3 lock step)",
+   "All (none|ge|gt) x (none|le|lt) x bound-pair queries over a bound universe incl. absent strings, prefixes, extensions, +-1 mutations and inverted ranges on exhaustive small FSTs, deep random maps and corpora; output compared with the model filter; after construction and after every next() the hooked DFS stack and key buffer must be in lock step; repeated-bound 'last setting wins'.",
+   "Bound classes are decided from inputs alone; hook H3 is read-only.", "DESIGN.md#c03"),
+ "C04": (True, "exploration", "reference-model monitor (independent DFA run per key) + online invariant monitor on hooked per-frame automaton state (H3); hint-weakening metamorphic coverage",
+   "All DFAs with <=2 states over 2 byte classes x all sound hint assignments, sampled/random larger DFAs with weakened hints, shipped automata and combinators (incl. Levenshtein, regex-automata DFAs) x FST sets x bound combinations; results, reported states and every hooked stack frame are compared with an independent run of the automaton.",
+   "Generated automata obey the contract by construction (sound hints proven on the explicit graph, no accept_eof).", "DESIGN.md#c04"),
+ "C05": (True, "exploration", "reference-model monitor: set algebra on model sets incl. per-key (index,value) multisets",
+   "All k-tuples (k<=4) of subsets of a small universe x 4 operations x raw/map/set OpBuilder APIs with rotated stream kinds (FST, range, search, user stream, same FST twice), sampled larger k, random large maps, and is_disjoint/is_subset/is_superset on all pairs.",
+   "IndexedValue order within a key is unspecified and compared as a sorted multiset.", "DESIGN.md#c05"),
+ "C06": (True, "exploration", "sequential-model monitor over exhaustive short call histories and random long ones",
+   "All 9331 call sequences of length <=5 over 6 keys x 4 step-wise front ends and 10 bulk front ends: each call result (variant and payload), bytes_written stability on rejection, and the finished content are compared with a 10-line model.",
+   "Mixed add/insert on one raw builder is outside the statement.", "DESIGN.md#c06"),
+ "C07": (True, "fault_enumeration", "event-log monitor on instrumented io::Write sinks: acceptance-schedule enumeration, byte equality with in-memory build, bytes_written vs accepted counter",
+   "For each FST every single-short-write position, every single-Interrupted position, caps 1..16, scripts, random schedules and container sinks; sink bytes must equal the in-memory build, reopen, verify and carry the reference CRC; bytes_written() is compared with the sink's accepted-byte counter after every call.",
+   "Sinks follow the io::Write contract.", "DESIGN.md#c07"),
+ "C08": (True, "fault_enumeration", "exhaustive single-byte corruption enumeration + bit-wise reference CRC oracle + synthetic-length sweep of the checksum fast path",
+   "Every offset x every other byte value on small FSTs (never 'opens and verifies'), sampled bit flips on corpus FSTs, reference masked CRC-32C on every built FST incl. hostile chunking, and synthetic images of every length 36..4200 covering all slice-by-16 tail lengths.",
+   "Multi-byte bursts are not judged (2^-32 collisions are legitimate).", "DESIGN.md#c08"),
  "C09": (True, "exploration", "independent on-disk format decoder + bit-wise reference CRC as runtime oracle over all built artifacts",
    "Every artifact of the shared case pool is parsed by a decoder written from the format description only (never the crate's reader): header, footer, node layouts, backward pointers, exact tiling, root last, checksum, decoded map == inserted map.",
    "The 63-entry common-input table is pinned format data; compactness policy is recorded, not judged.", "DESIGN.md#c09"),
+ "C10": (False, "exploration", "independent reference encoder for format versions 1-3 + golden files; reader queried against the model", "", "", "DESIGN.md#c10"),
+ "C11": (True, "fault_enumeration", "event-log monitor on fault-injecting sinks: every write-call index x error kinds / zero-length accept / flush failure, directly and through BufWriter",
+   "The sink logs which builder call was in progress when the injected fault happened; that call must return Err(Io) (no panic, no Ok, no other error); sessions that never reach the fault must deliver and flush every byte.",
+   "Interrupted is a retry request (C07); behaviour after an I/O error is not judged.", "DESIGN.md#c11"),
+ "C12": (True, "exploration", "hooked premise (cache eviction counter H2) + independent trie/minimal-DFA oracle on the decoded node graph",
+   "For every build: nodes <= trie nodes; when the hooked counters show no eviction: no two reachable nodes share a signature and sets have exactly the minimal DFA's state count; corpora must realise > 50% of achievable sharing (measured 0.78-0.96).",
+   "'No eviction' is observed through the cfg-guarded counters; 'most' is read as > 0.5.", "DESIGN.md#c12"),
+ "C13": (True, "exploration", "allocation monitor: counting global allocator around builds streaming to io::sink() at growing N",
+   "Peak live heap stays below an a-priori constant from geometry/fan-out/key length, does not move by more than 2% between N=10^6 and 10^7 (3*10^7 thorough), nothing is retained after finish; several geometries via hook H1.",
+   "Decides the bounded restatement (scales up to 3*10^7), not 'for all N'.", "DESIGN.md#c13"),
+ "C14": (True, "exploration", "allocation monitor: counting global allocator around traversals, set operations and lookups at growing N",
+   "Peak heap and allocation COUNT of stream/range/search/set-ops (k up to 8) are independent of N in {10^4,10^5,10^6(,10^7)} and under a fixed small constant; open-over-borrowed/mmap + 10^5 lookups allocate exactly 0 times.",
+   "Bounded restatement; constants fixed a priori.", "DESIGN.md#c14"),
+ "C15": (True, "exploration", "differential monitor: byte equality across API paths, sinks, repeated runs, 16 concurrent threads and child processes",
+   "Each sequence is built through up to 25 paths (all front ends, unions of partial FSTs streamed into a builder, sinks) and must be byte-identical; cross-thread and cross-process digests incl. tiny cache geometries where evictions occur.",
+   "Determinism is judged per cache geometry.", "DESIGN.md#c15"),
+ "C16": (True, "exploration", "reference-model monitor: inverse map oracle over exhaustive small monotone maps",
+   "All subsets of {a,b}^<=3 x 6 strictly increasing value shapes (with/without the empty key, zero/non-zero first value), corpora and random monotone maps; every stored value, +-1, extremes and random values through get_key and get_key_into (prefix-preserving).",
+   "Non-monotone maps are outside the statement.", "DESIGN.md#c16"),
+ "C17": (True, "exploration", "reference-model monitor: scalar-value edit distance oracle over an exhaustive multi-byte alphabet scope",
+   "All q in A^<=3 x d<=2 x all k in A^<=3 over an alphabet with 1-4 byte scalars sharing 1/2/3 lead bytes (1.03M triples), Set::search per (q,d), random wide-Unicode strings, and new_with_limit series (payload, monotonicity, behaviour, state ids).",
+   "Keys are valid UTF-8.", "DESIGN.md#c17"),
+ "C18": (True, "exploration", "reference language algebra: textbook-constructed reference DFA with exact reachability sets vs the real combinators driven byte by byte",
+   "~67k expressions (all leaves incl. every <=2-state component DFA with every sound hint assignment, unary/binary/depth-2/3 compositions) x all short strings + a representative of every reference state: is_match == membership, can_match false only in dead states, will_always_match true only in all-accepting states.",
+   "Component hints are sound by construction (the statement's premise); a brute-force third definition cross-checks the oracle.", "DESIGN.md#c18"),
+ "C19": (False, "exploration", "subprocess monitor of the real fst binary with seeded delay injection (H4), merge-tree trace checker, ThreadSanitizer and memcheck runs", "", "", "DESIGN.md#c19"),
+ "C20": (False, "exploration", "catch_unwind totality monitor in release and overflow-checked builds + Miri (undefined-behaviour interpreter) shards", "", "", "DESIGN.md#c20"),
 }
 TODO = ["C02","C03","C04","C05","C06","C07","C08","C10","C11","C12","C13","C14","C15","C16","C17","C18","C19","C20"]
 
